@@ -198,13 +198,13 @@ def plan(tier, seed):
             alt += 1
             cfgs = [G.cfg(), G.cfg(stop=True) if alt % 2 else G.cfg(dry=True), G.cfg(cont=True) if alt % 3 else G.cfg(retry=True),
                     G.cfg(show_skipped=False, capture=(alt % 2 == 0, alt % 3 == 0, alt % 5 == 0))]
-            out.append((p, cfgs, [[0, 0]] + spread(nh, 4)))
-        for p in G.family_tree(rnd, 1500):
+            out.append((p, cfgs, [[0, 0]] + spread(nh, 3)))
+        for p in G.family_tree(rnd, 1000):
             p = with_skips(with_o2(p), 0.2)
             nh = G.count_hooks_upper(G.flatten(p))
             cf = [rcfg(), rcfg()]
-            out.append((p, [dict(c, retry=False) for c in cf] if p.get("skips") else cf, [[0, 0]] + spread(nh, 8) + rfaults(p, 2)[1:]))
-        for p in G.family_big(rnd, 500):
+            out.append((p, [dict(c, retry=False) for c in cf] if p.get("skips") else cf, [[0, 0]] + spread(nh, 6) + rfaults(p, 2)[1:]))
+        for p in G.family_big(rnd, 300):
             out.append((with_o2(p), [rcfg(), rcfg()], rfaults(p, 6)))
     return out
 
